@@ -53,6 +53,25 @@ def random_shape(rnd, depth, p_leaf, p_un):
     return (random_shape(rnd, depth - 1, p_leaf, p_un), random_shape(rnd, depth - 1, p_leaf, p_un))
 
 
+def deep_shapes():
+    """Deterministic deep trees (depth 5..9): left chains, right chains, zigzags, combs, and the full tree of depth 5."""
+    out = []
+    for d in range(5, 10):
+        lc = rc = zz = cl = cr = (None, None)
+        for k in range(d):
+            lc = (lc, None)
+            rc = (None, rc)
+            zz = (zz, None) if k % 2 == 0 else (None, zz)
+            cl = (cl, (None, None))             # left comb: every right child is a leaf
+            cr = ((None, None), cr)
+        out += [lc, rc, zz, cl, cr]
+    full = (None, None)
+    for k in range(5):
+        full = (full, full)
+    out.append(full)
+    return out
+
+
 def depth_of(sh):
     l, r = sh[-2], sh[-1]
     return 0 if (l is None and r is None) else 1 + max(depth_of(x) for x in (l, r) if x is not None)
@@ -311,6 +330,9 @@ def main():
             continue
         k += 1
         cases.append(case_of(label_natural(sh) if rnd.random() < 0.6 else label_random(sh, rnd), 'sample4'))
+    for sh in deep_shapes():
+        cases.append(case_of(label_natural(sh), 'deep/natural'))
+        cases.append(case_of(label_random(sh, rnd), 'deep/random-types'))
     cases += grown_cases(25 if hlib.QUICK else 600, rnd, 'grow')
     hlib.emit({'cases': cases, 'n_exhaustive': n_exhaustive})
 
